@@ -1444,8 +1444,11 @@ def bin_term(op, a, b):
                 return ('lit', r())
         except Exception:
             pass
-    if op in ('Eq', 'Ne') and a[0] == 'lit' and b[0] == 'lit' and type(a[1]) is type(b[1]) and isinstance(a[1], (bytes, str)):
-        return ('lit', (a[1] == b[1]) == (op == 'Eq'))     # two literals of the same kind (text / bytes) are equal iff they are the same literal
+    if op in ('Eq', 'Ne') and a[0] == 'lit' and b[0] == 'lit' and isinstance(a[1], (bytes, str)) and isinstance(b[1], (bytes, str)):
+        # two string / byte-string literals are equal exactly when their bytes are (`as_bytes` is transparent, so a str literal may
+        # meet a byte-string literal: a str is its UTF-8 encoding)
+        x, y = (v.encode('utf-8') if isinstance(v, str) else v for v in (a[1], b[1]))
+        return ('lit', (x == y) == (op == 'Eq'))
     if op in ('BitOr', 'BitAnd', 'Or', 'And'):
         for x, y in ((a, b), (b, a)):
             if x[0] == 'lit' and isinstance(x[1], bool):
